@@ -35,6 +35,9 @@ CHECK_FLAGS = [
     "--bounds-check", "--pointer-check", "--pointer-overflow-check",
     "--signed-overflow-check", "--conversion-check", "--undefined-shift-check",
     "--div-by-zero-check", "--memory-leak-check", "--pointer-primitive-check",
+    # allocation failure is injected by the OS layer (verif_malloc & co.), so that
+    # every nondeterministic choice is scriptable for the native replay
+    "--no-malloc-may-fail",
 ]
 MEM_KB = 16 * 1024 * 1024
 
@@ -240,7 +243,8 @@ def instrument(res):
     if not enforce and not replace and not spec.get("loop_contracts"):
         res.gb2 = res.gb
         return
-    cmd = ["goto-instrument", "--dfcc", "harness"]
+    # --no-malloc-may-fail must be given here: DFCC links the malloc model
+    cmd = ["goto-instrument", "--no-malloc-may-fail", "--dfcc", "harness"]
     if enforce:
         cmd += ["--enforce-contract-rec" if spec.get("rec") else "--enforce-contract", enforce]
     for r in replace:
@@ -347,7 +351,7 @@ def run_harness(spec, tier, extra_defs=(), keep=False, trace_props=()):
         cmd = cbmc_cmd(res, extra)
         res.cmds.append(" ".join(cmd))
         out = os.path.join(res.dir, "cbmc.json" if not trace_props else "trace.json")
-        timeout = spec.get("timeout_" + tier, spec.get("timeout", 900))
+        timeout = int(os.environ.get("VERIF_TIMEOUT", spec.get("timeout_" + tier, spec.get("timeout", 900))))
         rc, wall = run(cmd, out, timeout)
         if rc == -999:
             res.problems.append("cbmc timed out after %ds" % timeout)
@@ -460,8 +464,10 @@ def trace_summary(trace, limit=60):
                 lines.append("call %s" % fn)
         elif st == "assignment" and not s.get("hidden"):
             lhs = s.get("lhs", "")
+            fn = s.get("sourceLocation", {}).get("function", "")
             if s.get("assignmentType") == "actual-parameter" or lhs.startswith("g.") \
-                    or lhs.startswith("return_value_"):
+                    or lhs.startswith("return_value_") or fn in ("harness", "any_process") \
+                    or "->" in lhs or lhs.startswith("dynamic_object"):
                 lines.append("  %s = %s" % (lhs, s.get("value", {}).get("data")))
         elif st == "failure":
             lines.append("FAILURE %s" % s.get("reason", ""))
@@ -778,6 +784,7 @@ def cmd_harness(args):
     keep = False
     names = []
     defs = []
+    explain = []
     i = 0
     while i < len(args):
         if args[i] == "--tier":
@@ -786,6 +793,9 @@ def cmd_harness(args):
         elif args[i].startswith("-D"):
             defs.append(args[i])
             i += 1
+        elif args[i] == "--explain":
+            explain.append(args[i + 1])
+            i += 2
         elif args[i] == "--all":
             names = [s["name"] for s in specs.HARNESSES]
             i += 1
@@ -812,6 +822,15 @@ def cmd_harness(args):
                                                    os.path.basename(ob["file"]), ob["line"]))
         if fl:
             rc = 1
+        for lab in explain:
+            for ob in r.obligations:
+                if (ob["label"] == lab or ob["id"] == lab) and ob["status"] != "SUCCESS":
+                    tr = run_harness(r.spec, tier, defs, trace_props=[ob["id"]])
+                    for o in tr.obligations:
+                        if o["id"] == ob["id"] and "trace" in o:
+                            print("---- counterexample for %s (%s)" % (lab, ob["id"]))
+                            print("\n".join(trace_summary(o["trace"], 400)))
+                    break
     return rc
 
 
